@@ -143,7 +143,7 @@ class WorldGen(object):
                            "variant": k.variant}
         self.formats = None
         if k.formats:
-            self.formats = {"names": ["sim-evenlen", "sim-lower", "sim-noz"],
+            self.formats = {"names": ["sim-evenlen", "sim-lower", "sim-noz", "sim-ambient"],
                             "variant": k.variant, "builtin": rng.random() < 0.3}
         self.triggers = None
         if k.triggers and (self.custom or self.formats):
@@ -489,7 +489,7 @@ class WorldGen(object):
 
     def format_name(self):
         rng = self.rng
-        names = ["sim-noz", "sim-noz", "sim-evenlen", "sim-lower"]
+        names = ["sim-noz", "sim-noz", "sim-evenlen", "sim-lower", "sim-ambient"]
         if self.formats.get("builtin"):
             names += ["ipv4", "date", "date"]
         return rng.choice(names)
